@@ -89,6 +89,19 @@ def strategy(tier):
     return strategy_(tier)
 
 
+def _not_conserving(G, kw):
+    """Edge mode: some node that is neither a source/sink nor an additional start/end has different in- and out-flow."""
+    free = set(kw.get("additional_starts", [])) | set(kw.get("additional_ends", []))
+    for v in G.nodes():
+        if v in free or G.in_degree(v) == 0 or G.out_degree(v) == 0:
+            continue
+        fin = sum(d.get("flow", 0) for _u, _v, d in G.in_edges(v, data=True))
+        fout = sum(d.get("flow", 0) for _u, _v, d in G.out_edges(v, data=True))
+        if abs(fin - fout) > 1e-9:
+            return True
+    return False
+
+
 def apply_mutation(name, cls, G, kw, pick):
     """Returns (G', kw') or None when the mutation cannot be applied to this base."""
     G = G.copy()
@@ -99,6 +112,9 @@ def apply_mutation(name, cls, G, kw, pick):
     ckey = CONSTRAINT_KEY[cls]
     cov_key = "subset_constraints_coverage" if cls in CYC_CLASSES else "subpath_constraints_coverage"
     ign = set(kw.get("elements_to_ignore", []))
+    # an element with error scale factor 0 is documented (and implemented) as ignored
+    sc = kw.get("error_scaling") or {}
+    ign |= {(tuple(e) if isinstance(e, list) else e) for e, s_ in (sc.items() if isinstance(sc, dict) else sc) if s_ == 0}
     if name == "non_string_node":
         v = nodes[pick[0] % len(nodes)]
         if any(v in c for c in kw.get(ckey, []) for _ in [0]) and node_mode:
@@ -287,6 +303,8 @@ def run_case(case, tier="quick"):
         if exc is not None:
             if exc.exc_type == "ValueError" and cls in ("kFlowDecomp", "MinFlowDecomp") and "flow conservation" in exc.msg and base["kw"].get("flow_attr_origin") != "node":
                 return invalid_config("base flow not conserving (generator noise)")
+            if exc.exc_type == "ValueError" and cls in ("kFlowDecompCycles", "MinFlowDecompCycles") and "flow conservation" in exc.msg and not node_mode and _not_conserving(G, kw):
+                return invalid_config("base flow not conserving at an inner node")
             return violation(f"valid_input_rejected:{cls}", f"{cls}: well-formed input raised {exc} during {phase}", labels, site=exc.site,
                              facts={"edge_off_st_walk": bool(wild), "node_mode": node_mode, "has_starts_ends": bool(kw.get("additional_starts") or kw.get("additional_ends"))})
         nontrivial = (not nx.is_directed_acyclic_graph(G)) or node_mode or sum(1 for v in G if G.in_degree(v) == 0) >= 2 or bool(wild)
